@@ -76,15 +76,16 @@ const (
 var cardCode = [...]string{"i", "o", "q", "rp", "ru", "u", "m"}
 
 type Field struct {
-	Name   string
-	Num    int32
-	Kind   Kind
-	Card   Card
-	Msg    string // message type name (Kind == KMessage), within the same file
-	Oneof  int    // index into Message.Oneofs (Card == OneofMember)
-	MapKey Kind
-	MapVal Kind
-	MapMsg string // message type name of a message-valued map
+	Name    string
+	Num     int32
+	Kind    Kind
+	Card    Card
+	Msg     string // message type name (Kind == KMessage), within the same file
+	Oneof   int    // index into Message.Oneofs (Card == OneofMember)
+	MapKey  Kind
+	MapVal  Kind
+	MapMsg  string // message type name of a message-valued map
+	MsgFile string // Base of the imported file that declares Msg / MapMsg ("" = this file)
 }
 
 type Message struct {
@@ -109,7 +110,13 @@ type File struct {
 	Proto2   bool
 	Messages []*Message
 	FileExts []Ext // extensions declared at file scope
-	Enum     bool  // declares enum "E" {E0=0; E1=1; E2=2; EN=-1; EBIG=2147483647}
+	// multi-file schemas: Imports are files this one depends on (a message field names its file in MsgFile);
+	// SubDir / PkgName make a go_package "gencorpus/<Base>/<SubDir>;<PkgName>" whose package name is not the last
+	// element of the import path
+	Imports []*File
+	SubDir  string
+	PkgName string
+	Enum    bool // declares enum "E" {E0=0; E1=1; E2=2; EN=-1; EBIG=2147483647}
 	// GoogleOnly: uses proto3 optional fields, which gogo/protobuf 1.3.2's generator does not support
 	// (it renders them as oneofs), so there are no gogo base types to attach fast-marshal code to
 	GoogleOnly bool
@@ -118,9 +125,40 @@ type File struct {
 	ParamV1 string
 }
 
-func (f *File) ProtoPath() string    { return f.Base + "/" + f.Base + ".proto" }
+// Dir is the directory (relative to the module root) of the .proto file and of the generated Go package.
+func (f *File) Dir() string {
+	if f.SubDir != "" {
+		return f.Base + "/" + f.SubDir
+	}
+	return f.Base
+}
+func (f *File) ProtoPath() string    { return f.Dir() + "/" + f.Base + ".proto" }
 func (f *File) ProtoPackage() string { return "vcorpus." + f.Base }
-func (f *File) GoPackage() string    { return "gencorpus/" + f.Base }
+func (f *File) GoPackage() string {
+	if f.PkgName != "" {
+		return "gencorpus/" + f.Dir() + ";" + f.PkgName
+	}
+	return "gencorpus/" + f.Dir()
+}
+
+// AllDescriptors: the descriptors a CodeGeneratorRequest for f must carry, dependencies first.
+func (f *File) AllDescriptors() []*descriptorpb.FileDescriptorProto {
+	var out []*descriptorpb.FileDescriptorProto
+	seen := map[string]bool{}
+	var walk func(x *File)
+	walk = func(x *File) {
+		if seen[x.Base] {
+			return
+		}
+		seen[x.Base] = true
+		for _, d := range x.Imports {
+			walk(d)
+		}
+		out = append(out, x.Descriptor())
+	}
+	walk(f)
+	return out
+}
 func (f *File) FullName(msg string) string {
 	return f.ProtoPackage() + "." + msg
 }
@@ -156,6 +194,12 @@ func (f *File) messageProto(m *Message) *descriptorpb.DescriptorProto {
 	}
 	nReal := len(m.Oneofs)
 	typeName := func(n string) *string { return proto.String("." + f.ProtoPackage() + "." + n) }
+	typeNameIn := func(file, n string) *string {
+		if file == "" {
+			return typeName(n)
+		}
+		return proto.String(".vcorpus." + file + "." + n)
+	}
 	for _, fd := range m.Fields {
 		fp := &descriptorpb.FieldDescriptorProto{
 			Name:     proto.String(fd.Name),
@@ -168,7 +212,7 @@ func (f *File) messageProto(m *Message) *descriptorpb.DescriptorProto {
 		case KEnum:
 			fp.TypeName = typeName("E")
 		case KMessage:
-			fp.TypeName = typeName(fd.Msg)
+			fp.TypeName = typeNameIn(fd.MsgFile, fd.Msg)
 		}
 		switch fd.Card {
 		case Required:
@@ -200,7 +244,7 @@ func (f *File) messageProto(m *Message) *descriptorpb.DescriptorProto {
 			case KEnum:
 				vf.TypeName = typeName("E")
 			case KMessage:
-				vf.TypeName = typeName(fd.MapMsg)
+				vf.TypeName = typeNameIn(fd.MsgFile, fd.MapMsg)
 			}
 			dp.NestedType = append(dp.NestedType, &descriptorpb.DescriptorProto{Name: proto.String(entry),
 				Field: []*descriptorpb.FieldDescriptorProto{kf, vf}, Options: &descriptorpb.MessageOptions{MapEntry: proto.Bool(true)}})
@@ -273,6 +317,9 @@ func (f *File) Descriptor() *descriptorpb.FileDescriptorProto {
 		Name:    proto.String(f.ProtoPath()),
 		Package: proto.String(f.ProtoPackage()),
 		Options: &descriptorpb.FileOptions{GoPackage: proto.String(f.GoPackage())},
+	}
+	for _, d := range f.Imports {
+		fd.Dependency = append(fd.Dependency, d.ProtoPath())
 	}
 	if f.Proto2 {
 		fd.Syntax = proto.String("proto2")
@@ -582,6 +629,22 @@ func Extra() []*File {
 	out = append(out, &File{Base: "xextfile", Proto2: true, Messages: []*Message{
 		{Name: "Base", ExtRange: true, Fields: []Field{{Name: "id", Num: 1, Kind: KInt64, Card: Optional}}}},
 		FileExts: []Ext{{Extendee: "Base", Field: Field{Name: "file_level", Num: 100, Kind: KInt32, Card: Optional}}}})
+	// a proto2 file whose only required field sits in a nested message definition
+	out = append(out, &File{Base: "xnestedreq", Proto2: true, Messages: []*Message{
+		{Name: "Outer", Fields: []Field{{Name: "i", Num: 1, Kind: KMessage, Card: Optional, Msg: "Outer.Inner"}, {Name: "n", Num: 2, Kind: KInt32, Card: Optional}},
+			Nested: []*Message{{Name: "Inner", Fields: []Field{{Name: "a", Num: 1, Kind: KInt32, Card: Required}}}}}}})
+	// message types imported from another file whose Go package name is not the last element of its import path
+	dep := &File{Base: "xdep", SubDir: "v1", PkgName: "xdepv1", Messages: []*Message{
+		{Name: "Meta", Fields: []Field{{Name: "a", Num: 1, Kind: KInt32, Card: Implicit}, {Name: "s", Num: 2, Kind: KString, Card: Implicit}}}}}
+	out = append(out, dep)
+	out = append(out, &File{Base: "ximport", Imports: []*File{dep}, Messages: []*Message{
+		{Name: "User", Oneofs: []string{"pick"}, Fields: []Field{
+			{Name: "meta", Num: 1, Kind: KMessage, Card: Implicit, Msg: "Meta", MsgFile: "xdep"},
+			{Name: "metas", Num: 2, Kind: KMessage, Card: RepUnpacked, Msg: "Meta", MsgFile: "xdep"},
+			{Name: "by", Num: 3, Kind: KMessage, Card: Map, MapKey: KString, MapVal: KMessage, MapMsg: "Meta", MsgFile: "xdep"},
+			{Name: "p_meta", Num: 4, Kind: KMessage, Card: OneofMember, Oneof: 0, Msg: "Meta", MsgFile: "xdep"},
+			{Name: "p_int", Num: 5, Kind: KInt32, Card: OneofMember, Oneof: 0},
+			{Name: "id", Num: 6, Kind: KInt64, Card: Implicit}}}}})
 	// deep nesting of definitions, snake and camel names, a message named like a Go keyword-ish identifier
 	out = append(out, &File{Base: "xnames", Proto2: true, Messages: []*Message{
 		{Name: "snake_case_msg", Fields: []Field{{Name: "some_field_name", Num: 1, Kind: KInt32, Card: Optional}, {Name: "URL", Num: 2, Kind: KString, Card: Optional}}},
